@@ -148,3 +148,37 @@ contract(f"{NET}::Network.load_snapshot", "load_snapshot.total",
          loops={f"{NET}::Network.load_snapshot#0": {"invariants": ["offset >= 0"], "havoc": {"address": None, "previous_offset": None},
                                                    "havoc_fields": []}},
          note="'prefer returning no peers over throwing an Exception'")
+
+# =====================================================================================================================
+# Part 3: the tunnel (cell) receive path is total as well
+
+from contracts.common import RUST_MODELS  # noqa: E402
+from contracts.tunnel_common import *  # noqa: E402,F403
+
+EXTERNAL_MODELS = {**RUST_MODELS, **TUNNEL_MODELS}
+
+
+def CEP(**extra):
+    f = dict(prefix=BYTES_FIXED(22), logger=LOGGER(), endpoint=EFFECT("raw", send={}),
+             settings=OBJ(f"{TC}::TunnelSettings", max_relay_early=INT),
+             circuits=DICTOBJ(INT, CIRCUIT("[hc1, hc2][:n_hops]"), where="v.circuit_id == k"),
+             relays=DICTOBJ(INT, RELAY(), where="True"),
+             exit_sockets=DICTOBJ(INT, ROUTING(f"{ES}::TunnelExitSocket", hop=HOP()), where="v.circuit_id == k"),
+             tunnel_community=OPT(EFFECT("tc", on_packet={})))
+    f.update(extra)
+    return OBJ(f"{CR}::PythonCryptoEndpoint", **f)
+
+
+_CV = {"hc1": HOP(), "hc2": HOP(), "self": CEP(), "source": ADDRESS, "data": BYTES}
+contract(f"{PL}::CellPayload.from_bin", "CellPayload.from_bin.total-on-cells",
+         vars={"data": BYTES, "CP": EXPR(f"resolve_class('{PL}::CellPayload')")}, requires=["len(data) >= 23"],
+         call="CP.from_bin(data)", raises=["PackError", "struct.error"],
+         ensures=["len(data) >= 29", "result.message == data[29:]"], ensures_raise=["len(data) < 29"],
+         covers=["raised is None"],
+         note="a cell shorter than its 29-byte header is rejected with an error, not mis-parsed")
+
+contract(f"{CR}::PythonCryptoEndpoint.on_packet", "crypto.on_packet.total", vars=_CV, instances=[{"n_hops": n} for n in (1, 2)],
+         call="self.on_packet((source, data))", raises=[],
+         stubs={f"{CR}::PythonCryptoEndpoint.relay_cell": {"event": "relay_cell", "note": "own contract in C04 (total: catches CryptoException)"}},
+         covers=["len(calls('tc.on_packet')) == 1"],
+         note="whatever bytes arrive - also 22..29 byte cells and cells whose decrypted message is empty - the listener returns")
